@@ -52,6 +52,9 @@ func init() {
 
 func genC05(seed uint64, i int, tier string) *Scenario {
 	r := NewRng(seed)
+	if i%2003 == 17 {
+		return genC05Big(r)
+	}
 	if i%8 == 7 {
 		return genC05KeepGoing(r)
 	}
@@ -78,6 +81,62 @@ func genC05(seed uint64, i int, tier string) *Scenario {
 		}
 	}
 	sc.Q = q
+	sc.Clients = []Client{{Stmts: []Stmt{{Text: q.Render(false)}}}}
+	return sc
+}
+
+// genC05Big: stores of thousands to more than a hundred thousand pairs with
+// one distinct value per row, batch sizes from 1 to beyond 4096, and aliases
+// that are (a) skipped by short-circuit for exactly g rows between two
+// evaluations, g around the powers of two at which 8-, 10-, 12- and 16-bit
+// counters wrap, (b) referenced twice in a WHERE that first accepts deep into
+// the store, (c) selected and filtered by prefix. Anything the engine keeps per
+// row, per chunk or per statement beyond a size threshold is only exercised
+// here. Field 0 is `key`, so all three sub-checks apply.
+func genC05Big(r *Rng) *Scenario {
+	n := pick(r, []int{3000, 5000, 20000, 70000, 140000})
+	init := make([]KV, n)
+	for j := range init {
+		init[j] = KV{fmt.Sprintf("k%07d", j), fmt.Sprintf("V%07d", j)}
+	}
+	val := &GExpr{Kind: "value", T: TS}
+	key := &GExpr{Kind: "key", T: TS}
+	u := &GExpr{Kind: "alias", T: TS, S: "u"}
+	def := pick(r, []*GExpr{call(TS, "lower", val), bin(TS, "+", val, lit("-x")), call(TS, "lower", bin(TS, "+", val, key))})
+	img := func(j int) string { // the alias value of row j, for definitions 0 and 1 as far as the prefix goes
+		return fmt.Sprintf("v%07d", j)
+	}
+	if def.Kind == "bin" {
+		img = func(j int) string { return fmt.Sprintf("V%07d", j) }
+	}
+	q := &GSelect{Fields: []GField{{E: key}, {E: def, Alias: "u"}}}
+	form := r.Intn(4)
+	switch form {
+	case 0, 1:
+		gaps := []int{255, 256, 257, 1023, 1024, 1025, 4095, 4096, 4097}
+		if n >= 70000 && r.Chance(0.7) {
+			gaps = []int{65535, 65536, 65537}
+		}
+		g := pick(r, gaps)
+		s0 := r.Intn(40)
+		var alt *GExpr
+		for k := 0; k < 3 && s0+k*g < n; k++ {
+			e := bin(TB, "=", val, lit(fmt.Sprintf("V%07d", s0+k*g)))
+			if alt == nil {
+				alt = e
+			} else {
+				alt = bin(TB, "|", alt, e)
+			}
+		}
+		q.Where = bin(TB, "&", alt, bin(TB, "!=", u, lit("zz")))
+	case 2:
+		p := n/2 + r.Intn(n/2-20)
+		q.Where = bin(TB, "&", bin(TB, ">", u, lit(img(p))), bin(TB, "<", u, lit(img(p+r.Range(2, 12)))))
+	default:
+		p := r.Intn(n)
+		q.Where = bin(TB, "^=", u, lit(img(p)[:len(img(p))-r.Range(1, 2)]))
+	}
+	sc := &Scenario{Family: "big", Cfg: Config{Batch: pick(r, []int{1, 4, 32, 1025, 1500, 4097}), Lazy: r.Bool()}, Init: init, Q: q}
 	sc.Clients = []Client{{Stmts: []Stmt{{Text: q.Render(false)}}}}
 	return sc
 }
